@@ -25,7 +25,7 @@ RULE = (
 )
 ASSUMPTIONS = ["hashlib is correct", "coincidence bound for fresh salts: 2^-128 (md5 salt is 16 bytes)"]
 REQUIRED = ["alg:md5", "alg:sha1", "alg:sha224", "alg:sha256", "alg:sha384", "alg:sha512", "p:bytes", "p:str",
-            "q:near-miss", "default:plaintext", "default:digest", "route:document", "place:nested"]
+            "q:near-miss", "default:plaintext", "default:digest", "route:document", "place:nested", "env:blank", "env:absent"]
 LEVEL_TEXT = (
     "Generated secrets/algorithms/formats with hashlib recomputation as the independent oracle and a save/load "
     "round trip; evidence on the explored inputs, kills fixed-salt / truncated-compare / re-hash-on-load mutants."
@@ -95,6 +95,8 @@ def strategy(tier):
             "place": st.sampled_from(["root", "nested", "configtype"]),
             "route": st.sampled_from(["attr", "ctor", "load_tree", "document"]),
             "salt": st.binary(min_size=0, max_size=80),
+            # the field is bound to an environment variable that is absent, or present but blank (= not set, for every field)
+            "env": st.sampled_from([None, None, "absent", "blank"]),
         })
     return _secret().flatmap(build)
 
@@ -117,7 +119,21 @@ def _tree_strings(t):
         yield bytes(t) if isinstance(t, bytearray) else t
 
 
+ENV_NAME = "CCVC09_PW"
+
+
 def run_case(case, R):
+    import os
+    os.environ.pop(ENV_NAME, None)
+    if case.get("env") == "blank":
+        os.environ[ENV_NAME] = ""
+    try:
+        _run_case(case, R)
+    finally:
+        os.environ.pop(ENV_NAME, None)
+
+
+def _run_case(case, R):
     cc = sandbox._state["cc"]
     alg = case["alg"]
     p, q = case["p"], case["q"]["v"]
@@ -146,6 +162,9 @@ def run_case(case, R):
         kwargs["default"] = default_plain
     elif case["default"] == "digest":
         kwargs["default"] = cc.DigestValue.create(default_plain, hashfn)
+    if case.get("env"):
+        kwargs["env"] = ENV_NAME
+        R.label("env:" + case["env"])
     schema = cc.Schema()
     if case["place"] == "root":
         schema.pw = cc.ChallengeField(alg, **kwargs)
